@@ -334,6 +334,8 @@ class ExprMixin:
                 return mk_bool(node.id == "True")
             if node.id == "inf":
                 return SV(EXT, z3.RealVal(0), z3.IntVal(1))
+            if node.id == "pi":
+                return SV(REAL, self.pi_const(st))
         g = self.global_name(node.id, st)
         if g is not None:
             return g
@@ -345,6 +347,8 @@ class ExprMixin:
         imp = self.module_imports.get(name)
         if imp is not None and not imp.startswith("module:"):
             mod, _, fn = imp.rpartition(".")
+            if mod == "math" and fn == "pi":
+                return SV(REAL, self.pi_const(st))
             if mod in ("random", "math", "copy", "functools", "itertools", "time"):
                 return PyVal("func", name="%s.%s" % (mod, fn))
             if mod == "scipy.optimize":
@@ -554,7 +558,11 @@ class ExprMixin:
             if z3.is_rational_value(sb) and sb.denominator_as_long() == 1 and 0 <= sb.numerator_as_long() <= 8:
                 return self.power(a, mk_int(sb.numerator_as_long()), st, spec)
         f = z3.Function("pow_real", z3.RealSort(), z3.RealSort(), z3.RealSort())
-        self.ctx.models_used.add("pow: uninterpreted real function")
+        self.ctx.models_used.add("pow: uninterpreted real function; 0 <= x <= 1 and exponent >= 1 imply 0 <= x**n <= 1 (A5)")
+        x, n = z3.Reals("pw_x pw_n")
+        ax = z3.ForAll([x, n], z3.Implies(z3.And(0 <= x, x <= 1, n >= 1), z3.And(f(x, n) >= 0, f(x, n) <= 1)), patterns=[f(x, n)], qid="el_pow")
+        if st is not None and not any(ax.eq(p) for p in st.pc):
+            st.pc.append(ax)
         return SV(REAL, f(self.to_real(a), self.to_real(b)))
 
     def unopt(self, v, st, spec):
@@ -775,7 +783,7 @@ class ExprMixin:
     def getattr_(self, base, attr, st, spec):
         if isinstance(base, PyVal):
             if base.kind == "module":
-                return self.module_attr(base.name, attr)
+                return self.module_attr(base.name, attr, st)
             if base.kind == "class":
                 s = self.reg.static(base.name, attr)
                 if s is not None:
@@ -821,7 +829,12 @@ class ExprMixin:
             return mk_str(s)
         raise Unsupported("static %r" % (s,))
 
-    def module_attr(self, mod, attr):
+    def module_attr(self, mod, attr, st=None):
+        if mod in ("math", "np", "numpy") and attr == "pi" and st is not None:
+            return SV(REAL, self.pi_const(st))
+        return self._module_attr(mod, attr)
+
+    def _module_attr(self, mod, attr):
         if mod in ("math", "np", "numpy") and attr in ("inf", "infty", "Inf"):
             if mod != "math" and attr != "inf":
                 raise Unsupported("numpy has no attribute %r in the installed version" % attr)
